@@ -1055,6 +1055,80 @@ def queries_many_records(s):
     listing(s, "usr1", 1, [["uatom", 1]], G(n=[["uosmo", 7]]), secs=600)
 
 
+def count_truncation_cfg():
+    return world.default_cfg(n_cw20=1, n_cw721=1, hostile=False, traders=2, tokens_per_coll=1, extra_denoms=["x%03d" % i for i in range(282)])
+
+
+def count_truncation(s):
+    """C12: the 25-asset cap with counts whose low 8 bits look legal (256 .. 281 items): asks at creation and by ChangeAsk,
+    top-ups of a listing and of a bucket that would bring the record to 256 + r distinct assets."""
+    xs = lambda n, a=1: [["x%03d" % i, a] for i in range(n)]
+    for n in (256, 257, 281, 282):
+        s.do(E("usr0", {"k": "create_listing", "id": 1, "ask": G(n=xs(n)), "wl": None}, [["uatom", 5]]), "malformed")
+    s.do(E("usr0", {"k": "create_listing", "id": 1, "ask": G(n=xs(25)), "wl": None}, [["uatom", 5]]), "valid")
+    for n in (256, 270, 281):
+        s.do(E("usr0", {"k": "change_ask", "id": 1, "ask": G(n=xs(n, 2))}), "malformed")
+    s.do(E("usr0", {"k": "add_to_listing", "id": 1}, xs(255)), "malformed")      # 1 + 255 = 256 distinct assets
+    s.do(E("usr0", {"k": "add_to_listing", "id": 1}, xs(256)), "malformed")      # 257
+    s.do(E("usr0", {"k": "add_to_listing", "id": 1}, xs(280)), "malformed")      # 281
+    s.do(E("usr0", {"k": "add_to_listing", "id": 1}, xs(24)), "valid")           # 25
+    bucket(s, "usr1", 1, [["uatom", 5]])
+    s.do(E("usr1", {"k": "add_to_bucket", "id": 1}, xs(255)), "malformed")
+    s.do(E("usr1", {"k": "add_to_bucket", "id": 1}, xs(256)), "malformed")
+    s.do(E("usr1", {"k": "add_to_bucket", "id": 1}, xs(24)), "valid")
+    s.query_here()
+
+
+def odd_amounts_and_denoms_cfg():
+    rich = [("usr0", "uatom", 2 ** 70), ("usr1", "uatom", 2 ** 70), ("usr0", "uosmo", 2 ** 70)]
+    return world.default_cfg(rich=rich, extra_denoms=["UATOM", "Uatom", "UJUNOX"])
+
+
+def odd_amounts_and_denoms(s):
+    """C19: non-deposit messages carrying coins whose amounts look like nothing in a narrower integer (multiples of 2^64 / 2^32,
+    two coins that sum to 2^64).  C03 / C05 / C12 / C01: denominations that differ only in letter case are different assets -
+    a top-up in "UATOM" does not raise the record's "uatom", and does not meet an ask in "uatom"."""
+    ask = G(n=[["uatom", 200]])
+    big = ([["uatom", 2 ** 64]], [["uatom", 2 ** 65]], [["uatom", 2 ** 32]], [["uatom", 2 ** 63], ["uosmo", 2 ** 63]],
+           [["uatom", 2 ** 64 + 2 ** 32]], [["uatom", 3 * 2 ** 64]])
+    listing(s, "usr0", 1, [["uosmo", 5]], ask, finalize=False)
+    for c in big:
+        s.do(E("usr0", {"k": "change_ask", "id": 1, "ask": ask}, c), "funds_on_nondeposit")
+    s.do(E("usr0", {"k": "finalize", "id": 1, "secs": 600}, big[0]), "funds_on_nondeposit")
+    s.do(E("usr0", {"k": "finalize", "id": 1, "secs": 600}), "valid")
+    bucket(s, "usr0", 9, [["uosmo", 1]])
+    for c in big:
+        s.do(E("usr0", {"k": "remove_bucket", "id": 9}, c), "funds_on_nondeposit")
+    s.do(E("usr0", {"k": "remove_bucket", "id": 9}), "valid")
+    # case variants of a denomination
+    bucket(s, "usr1", 1, [["uatom", 200]])                     # the honest buyer
+    bucket(s, "usr2", 2, [["uatom", 100]])
+    s.do(E("usr2", {"k": "add_to_bucket", "id": 2}, [["UATOM", 100]]), "valid")     # another asset, not 200 uatom
+    s.query_here()
+    buy(s, "usr2", 1, 2)                                       # refused: 100 uatom + another asset is not 200 uatom
+    s.do(E("usr0", {"k": "remove_bucket", "id": 2}), "valid")  # refused: not the seller's (nothing was sold)
+    s.do(E("usr2", {"k": "add_to_bucket", "id": 2}, [["Uatom", 1], ["uatom", 1]]), "valid")
+    for c in big[:2]:
+        s.do(E("usr1", {"k": "buy", "lid": 1, "bid": 1}, c), "funds_on_nondeposit")
+    buy(s, "usr1", 1, 1)
+    s.do(E("usr1", {"k": "withdraw_purchased", "id": 1}, big[0]), "funds_on_nondeposit")
+    s.do(E("usr1", {"k": "withdraw_purchased", "id": 1}), "valid")
+    s.do(E("usr0", {"k": "remove_bucket", "id": 1}), "valid")
+    s.do(E("usr1", {"k": "remove_bucket", "id": 1}), "valid")  # refused: sold, no longer usr1's
+    s.do(E("usr2", {"k": "remove_bucket", "id": 2}), "valid")
+    # the fee denomination itself in another case is not the fee denomination: no fee on it, and an ask in it is another ask
+    listing(s, "usr3", 3, [["UJUNOX", 10000], ["ujunox", 10000]], G(n=[["UJUNOX", 1000], ["ujunox", 1000]]))
+    bucket(s, "usr4", 3, [["ujunox", 2000]])
+    buy(s, "usr4", 3, 3)                                       # refused
+    bucket(s, "usr4", 4, [["ujunox", 1000], ["UJUNOX", 1000]])
+    buy(s, "usr4", 3, 4)
+    s.do(E("usr4", {"k": "withdraw_purchased", "id": 3}), "valid")
+    s.do(E("usr3", {"k": "remove_bucket", "id": 4}), "valid")
+    adv(s, 604801)
+    s.do(E("usr3", {"k": "fee_cycle"}, big[0]), "funds_on_nondeposit")
+    s.do(E("usr3", {"k": "delete_listing", "id": 1}, big[0]), "funds_on_nondeposit")
+
+
 def odd_token_ids_cfg():
     cfg = world.default_cfg()
     k = 0
@@ -1145,6 +1219,8 @@ SCRIPTS = {
     "market_order": (world.default_cfg, market_order, ()),
     "big_amounts": (big_amounts_cfg, big_amounts, ()),
     "odd_token_ids": (odd_token_ids_cfg, odd_token_ids, ()),
+    "odd_amounts_and_denoms": (odd_amounts_and_denoms_cfg, odd_amounts_and_denoms, ()),
+    "count_truncation": (count_truncation_cfg, count_truncation, ()),
     "queries_pages": (queries_pages_cfg, queries_pages, ("all_pages",)),
     "queries_many_records": (queries_many_records_cfg, queries_many_records, ("all_pages", "no_drain")),
 }
